@@ -9,7 +9,7 @@ THEOREMS = {
     'C03': ['C01_getter_exact', 'C02_setter_exact', 'C03_oob_panics'],
     'C04': ['C01_getter_exact', 'C02_setter_exact', 'C01_bit_weights', 'C02_readback', 'C02_frame'],
     'C05': ['C01_getter_exact', 'C02_setter_exact'],
-    'C06': ['C06_raw_value_exact', 'C06_new_with_raw_value_exact'],
+    'C06': ['C06_raw_value_exact', 'C06_new_with_raw_value_exact', 'C06_storage_minimal'],
     'C07': ['C07_new_returns_the_variant_with_that_discriminant', 'C07_err_when_no_variant', 'C07_raw_then_new',
             'C07_new_then_raw', 'C07_never_panics', 'C10_no_variant_is_unrepresentable'],
     'C08': ['C01_getter_exact', 'C02_setter_exact'],
@@ -20,6 +20,15 @@ THEOREMS = {
     'C12': ['C12_last_write_wins', 'C12_last_write_is_the_last_covering_one', 'C12_untouched_bits_keep_initial_value',
             'C12_disjoint_writes_commute', 'C12_getters_observe_the_state', 'C12_overlapping_fields_alias_coherently',
             'C12_real_code_any_history', 'C12_run_obligations_give_setters_ok', 'C02_setter_exact'],
+    'C13': ['C13_builder_is_the_with_chain_from_the_default', 'C13_every_argument_reads_back',
+            'C13_uncovered_bits_keep_the_default', 'C12_real_code_any_history', 'C12_run_obligations_give_setters_ok'],
+    'C14': ['C14_overlap_test_is_exact', 'C14_offered_iff_sound', 'C14_chain_masks_strictly_grow',
+            'C14_only_the_complete_chain_reaches_build', 'C14_the_complete_chain_typechecks'],
+    'C15': ['C15_everything_but_set_is_const', 'C15_builder_steps_are_const', 'C16_seval_total_profile_independent'],
+    'C17': ['C17_field_api_is_exactly_what_the_specifier_says', 'C17_whole_api_surface',
+            'C17_only_setters_of_writable_fields_mutate', 'C17_writes_elsewhere_do_not_touch_a_field', 'C02_frame'],
+    'C18': ['C18_public_items_are_documented', 'C18_builder_items_are_documented'],
+    'C19': ['C19_every_field_by_name_in_order', 'C19_text_is_a_function_of_the_getters', 'C01_getter_exact'],
     'C16': ['C16_seval_total_profile_independent', 'C16_checked_ok_then_unchecked_same', 'C01_getter_exact',
             'C02_setter_exact'],
 }
